@@ -544,13 +544,84 @@ func c11TwoLayouts(c *fw.Ctx, idx int) {
 		}
 	}
 	c.Distinct(fmt.Sprintf("two/%d/%d", g, idx))
+	// ... and layouts of many dimensions after the usual ones: a small ring and a
+	// line under Layout(66), Layout(67), Layout(129), Layout(130), right after the same
+	// questions under XY and XYZ
+	if r.Chance(1, 4) {
+		sq := []ipt{{0, 0}, {6, 0}, {6, 6}, {0, 6}, {0, 0}}
+		p := ipt{int64(r.Intn(8)), int64(r.Intn(8))}
+		want, _, _ := iLocate(p, sq)
+		onl := false
+		for k := 1; k < len(sq); k++ {
+			if ionseg(p, sq[k-1], sq[k]) {
+				onl = true
+			}
+		}
+		for _, lay := range []geom.Layout{geom.XY, geom.XYZ, geom.Layout([]int{66, 67, 129, 130, 64, 65, 258}[r.Intn(7)]), geom.XYZM} {
+			st := lay.Stride()
+			fl := make([]float64, len(sq)*st)
+			for i, v := range sq {
+				fl[i*st], fl[i*st+1] = float64(v.x), float64(v.y)
+				for k := 2; k < st; k++ {
+					fl[i*st+k] = float64(100 + k)
+				}
+			}
+			pc := make(geom.Coord, st)
+			pc[0], pc[1] = float64(p.x), float64(p.y)
+			var got location.Type
+			var gotOn bool
+			if c.Guard("panic", func() { got = xy.LocatePointInRing(lay, pc, fl); gotOn = xy.IsOnLine(lay, pc, fl) }) {
+				return
+			}
+			c.Eval(2)
+			c.Count("layouts_of_many_dimensions_after_the_usual_ones")
+			if got != want || gotOn != onl {
+				c.SetInput(map[string]any{"point": fmt.Sprintf("(%d %d)", p.x, p.y), "ring": "square (0 0)-(6 6)", "layout": lay.String()})
+				c.Fail("wrong-location", "square (0 0)-(6 6) under %s: LocatePointInRing = %s (exact %s), IsOnLine = %v (exact %v)", lay, got, want, gotOn, onl)
+				return
+			}
+		}
+	}
 }
 
 // (vi) rings of 8,192 .. 20,000 vertices (star-shaped around the origin), with
 // query points on vertices, on edges, on chords between far-apart vertices (the
 // first vertex and the ones around the middle of the list among them), inside and outside
+// c11Sawtooth: a comb of 20,000..70,000 teeth: a point under the first tooth sees
+// every tooth edge on its ray (tens of thousands of crossings), a point inside a
+// tooth further along fewer; the closing base runs below everything.
+func c11Sawtooth(c *fw.Ctx, teeth int) {
+	ring := make([]ipt, 0, 2*teeth+4)
+	for i := 0; i < teeth; i++ {
+		ring = append(ring, ipt{int64(4 * i), 0}, ipt{int64(4*i + 2), 10})
+	}
+	ring = append(ring, ipt{int64(4 * teeth), 0}, ipt{int64(4 * teeth), -10}, ipt{0, -10}, ring[0])
+	flat := flatRing(ring, 2, nil)
+	c.SetInput(map[string]any{"ring": fmt.Sprintf("comb of %d teeth (x = 4i .. 4i+4, height 10) on a base 10 deep", teeth)})
+	for _, p := range []ipt{{1, 1}, {2, 5}, {1, 6}, {-1, 5}, {3, -5}, {int64(4*teeth - 2), 9}, {int64(2 * teeth), 4}, {int64(2*teeth + 1), 4}, {2, 10}, {4, 0}, {5, 20}, {1, 2}} {
+		want, _, _ := iLocate(p, ring)
+		var got location.Type
+		var in bool
+		pc := geom.Coord{float64(p.x), float64(p.y)}
+		if c.Guard("panic", func() { got = xy.LocatePointInRing(geom.XY, pc, flat); in = xy.IsPointInRing(geom.XY, pc, flat) }) {
+			return
+		}
+		c.Eval(2)
+		c.Count("sawtooth_queries")
+		if got != want || in != (want != location.Exterior) {
+			c.SetInput(map[string]any{"ring": fmt.Sprintf("comb of %d teeth", teeth), "point": fmt.Sprintf("(%d %d)", p.x, p.y)})
+			c.Fail("wrong-location", "comb of %d teeth: LocatePointInRing = %s, IsPointInRing = %v, exact answer %s", teeth, got, in, want)
+			return
+		}
+	}
+}
+
 func c11HugeRings(c *fw.Ctx, idx int) {
 	r := c.R
+	if idx%4 == 3 {
+		c11Sawtooth(c, []int{16383, 16384, 32767, 32768, 32769, 40000, 65535, 65536, 65537, 70000}[r.Intn(10)])
+		return
+	}
 	n := []int{8192, 8193, 8191, 16384, 16385, 10000, 20000, 12289}[r.Intn(8)] + r.Intn(3)
 	R := float64(int64(1) << 24)
 	ring := make([]ipt, 0, n+1)
@@ -883,7 +954,7 @@ func init() {
 			{Name: "hard-edges", Quick: 20000, Thorough: 2400000, Run: c11HardEdges},
 			{Name: "one-array-two-layouts", Quick: 20000, Thorough: 1600000, Run: c11TwoLayouts},
 			{Name: "long-lines", Quick: 3000, Thorough: 200000, Run: c11LongLines},
-			{Name: "huge-rings", Quick: 24, Thorough: 2400, Chunk: 2, Run: c11HugeRings},
+			{Name: "huge-rings", Quick: 32, Thorough: 2400, Chunk: 2, Run: c11HugeRings},
 		},
 		Require: []string{"loc_interior", "loc_boundary", "loc_exterior", "on_vertex", "on_edge_interior", "ray_through_vertex", "horizontal_edge_on_ray", "variant_sets", "online_true", "online_false", "online_float_inputs"},
 	})
